@@ -27,6 +27,7 @@ FOCUS = {
  "sites_input": "The FIRST change must consist of TWO COOPERATING EDITS in different functions (or files) that each look fine alone -- e.g. a helper whose contract is slightly changed (return value, mutability of what it returns, units, inclusive/exclusive bound, default argument) and a caller that relied on the old contract on one path only. The SECOND change must need an UNUSUAL BUT LEGITIMATE INPUT OR CONFIGURATION to manifest (a boundary value, a tie, a zero, a repeated value, a particular size, a documented option or combination of options, an alternative public entry point that reaches the same functionality), so that ordinary inputs through the usual entry point behave correctly.",
  "fault_option": "The FIRST change must only manifest AFTER AN ERROR PATH OR A DEGENERATE CALL was taken earlier in the same process: an earlier call that legitimately fails or does nothing (a documented rejection, an exception on a bad or empty input, a missing name, an unreachable target, an empty result, a file that cannot be parsed) leaves something behind -- a global format or option not restored, a half-updated table, a flag or cache not reset, a partially registered object -- so that a LATER, perfectly valid call inside the property's scope misbehaves; the valid call alone, in a fresh process, must behave correctly. The SECOND change must manifest only through a DOCUMENTED OPTION, OPTIONAL ARGUMENT, OR ALTERNATIVE PUBLIC ENTRY POINT that reaches the same functionality (a keyword argument with a non-default value, a wrapper method on another class, an operator overload, a convenience function, a different but documented type for an argument), so that the usual entry point with default options behaves correctly.",
  "magnitude_derived": "The FIRST change must depend on the MAGNITUDE OR FLOATING-POINT REPRESENTATION of otherwise ordinary values: an absolute tolerance where a relative one is needed (or the reverse), an exact float comparison, an integer truncation or rounding, a unit or scale assumption, accumulated rounding, a value that is only exact for small / integer / dyadic numbers -- so that inputs of one magnitude (small integers, coordinates near the origin, dates near 1970, short tracks) behave correctly while realistic inputs of another magnitude (projected map coordinates of several millions, timestamps of today, sub-millimetre or many-kilometre lengths, very long tracks) break the property. The SECOND change must manifest only when the object handed to the function is itself a DERIVED OBJECT produced by another public operation of the library -- a copy(), an extract or slice, a concatenation (+), a reversed or re-sorted track, a track read back from a file, a track converted to another coordinate system, a resampled or simplified track, a sub-network, a collection filtered on a box -- because the derived object shares, lacks or carries over some internal state (feature table, base point, identifiers, flags, cached values, object identity of the observations); the same values built from scratch must behave correctly.",
+ "types_scale": "The FIRST change must manifest only for a documented but LESS USUAL TYPE OR SPELLING OF AN ARGUMENT OR NAME: an int where floats are usual (or a float with an integral value where ints are usual), a numpy scalar or numpy array instead of a Python number or list, a tuple instead of a list, a Node / Track / ObsTime object where an identifier, a list or a string is also accepted (or the reverse), a negative index, a feature or identifier NAME that is unusual but legal (a name that is a prefix or suffix of another name or of a built-in function name, contains digits, upper case, blanks or an underscore, is one character long, equals a coordinate name in another case) -- ordinary types and names must behave correctly. The SECOND change must manifest only at a LARGER SCALE than small examples: tracks of several hundred or thousand observations, networks of hundreds of nodes, collections of dozens of tracks, dozens of features, many repeated calls in one process, recursion that gets deep, accumulated rounding over long sums, a counter or buffer that overflows or is sized for small inputs, a quadratic shortcut switched on above a size threshold -- small inputs (up to a few dozen elements) must behave correctly, and the demonstration must still finish in under 60 s.",
  "": "",
 }[focus]
 print(f"""You are helping to evaluate a verification harness. You work in a scratch git worktree of the pure-Python GPS trajectory library `tracklib` at `{W}` (a checkout of the project's current HEAD). Work ONLY inside `{W}` and `{OUT}`. Do not read, list or touch `/verif`, `/repo`, `/root/.vp` or any other `/tmp/seed*` directory: your work must be independent of everything there.
